@@ -266,6 +266,30 @@ def run(ctx):
             c = {"kind": "cfg", "enc": "tiled", "d": [1] * n, "nc": nc, "np": npar, "tab": [[0]], "meta": True, "topk": False, "k": 0, "crit": [0] * n,
                  "hastwin": False, "twin": [], "slack": 0, "err": "%s: %s" % (type(e).__name__, str(e)[:160])}
         add(c, "cfg.%sSelectionConfiguration" % enc)
+    # (B2) many candidates (more than a signed / unsigned byte can index) with sparse decisions stored in NARROW dtypes: the
+    # configuration must refer to the individuals the decision names, whatever width the decision vector has
+    for t in range(24 if thorough else 12):
+        enc = ("Integer", "Binary", "Subset", "Integer")[t % 4]
+        n = (160, 200, 300, 260)[t % 4]; nc = rng.randrange(2, 5); npar = 2
+        pop = population(rng, n, 3, 1)
+        hi = sorted(rng.sample(range(128, n), 3)) + [rng.randrange(0, 100)]       # chosen individuals, mostly beyond index 127
+        if enc == "Integer":
+            decn = np.zeros(n, dtype=("int8", "uint8", "int16")[(t // 4) % 3])
+            for q_ in hi:
+                decn[q_] = rng.choice([1, 2])
+        elif enc == "Binary":
+            decn = np.zeros(n, dtype=("int8", "uint8", "int64")[(t // 4) % 3]); decn[hi] = 1
+        else:
+            decn = np.array(hi, dtype=("int16", "uint16", "int32")[(t // 4) % 3])
+        cls = getattr(importlib.import_module(CFG + enc + "SelectionConfiguration"), enc + "SelectionConfiguration")
+        try:
+            with time_limit(30):
+                cfg = cls(ncross=nc, nparent=npar, nmating=1, nprogeny=1, pgmat=pop["pg"], xconfig_decn=decn.copy(), rng=gen(rng))
+            c = cfg_case(enc, decn.astype("int64"), cfg, n, nc, npar, meta_ok(cfg, pop["pg"], nc, npar, 1, 1) and np.array_equal(cfg.xconfig_decn, decn))
+        except Exception as e:
+            c = {"kind": "cfg", "enc": "tiled", "d": [1] * n, "nc": nc, "np": npar, "tab": [[0]], "meta": True, "topk": False, "k": 0, "crit": [0] * n,
+                 "hastwin": False, "twin": [], "slack": 0, "err": "%s: %s" % (type(e).__name__, str(e)[:160])}
+        add(c, "cfg.%sSelectionConfiguration[narrow dtype, %d candidates]" % (enc, n))
     # mate configurations
     for t in range(ncfg // 2):
         enc = ("Subset", "Integer", "Binary", "Real")[t % 4]
